@@ -39,6 +39,9 @@ type Chain struct {
 	Logger int          `json:"logger"`           // 0 root, 1 child with context, 2 grandchild with hook, 3 global log.Logger, 4 child whose first hook discards debug events, 5 a With() child owned by goroutine 0 (the only one that updates its context), 6 a Level() copy of 5 taken before any update
 	Update int          `json:"update,omitempty"` // logger 5 only, before the event: 1 UpdateContext(add a field), 2 UpdateContext(Reset, add a field)
 	Ev     lp.EventSpec `json:"event"`
+	// Panic: the event is started with Panic() instead (its goroutine recovers, as a request handler would):
+	// written once, like any other, before the call panics
+	Panic bool `json:"panic_level,omitempty"`
 }
 
 type Workload struct {
@@ -209,6 +212,17 @@ func (b bigObj) MarshalZerologObject(e *zerolog.Event) {
 }
 
 func emit(ls []*zerolog.Logger, c Chain) {
+	if c.Panic && !lp.Direct(c.Ev.Method) {
+		l := ls[c.Logger]
+		if c.Logger == 3 {
+			l = &zlog.Logger
+		}
+		func() {
+			defer func() { recover() }()
+			lp.Finish(lp.ApplyEvent(l.Panic(), c.Ev.Ops), c.Ev)
+		}()
+		return
+	}
 	if c.Logger == 3 {
 		old := zlog.Logger
 		_ = old
@@ -254,7 +268,7 @@ func runWorkload(wl *Workload) (msg string, nontrivial bool) {
 		for _, c := range g {
 			before := len(solo.got)
 			emit(sl, c)
-			discarded := c.Logger == 4 && (c.Ev.Method == "debug" || c.Ev.Method == "print" || c.Ev.Method == "printf" || c.Ev.Method == "println")
+			discarded := c.Logger == 4 && !c.Panic && (c.Ev.Method == "debug" || c.Ev.Method == "print" || c.Ev.Method == "printf" || c.Ev.Method == "println")
 			if discarded && len(solo.got) == before {
 				continue
 			}
@@ -398,6 +412,12 @@ func genChain(rt *rapid.T, g *lp.G) Chain {
 	switch c.Ev.Method {
 	case "trace", "withlevel", "log":
 		c.Ev.Method = rapid.SampledFrom([]string{"debug", "info", "warn", "error"}).Draw(rt, "m2")
+	}
+	if !lp.Direct(c.Ev.Method) && rapid.IntRange(0, 9).Draw(rt, "panicev") == 0 {
+		c.Panic = true
+		if rapid.Bool().Draw(rt, "panicfin") {
+			c.Ev.Fin = "msgfunc"
+		}
 	}
 	if p := rapid.IntRange(0, 9).Draw(rt, "payload"); p >= 7 {
 		n := 600
